@@ -94,20 +94,11 @@ def run(ctx, rep):
         except Undecided as e:
             rep.undecided("X2", enc, "rank %d" % rank, str(e))
     # ---- X3 (shared layout sites)
-    for q in ("quara.objects.operators._compose_qoperations_MProcess_MProcess", "quara.objects.operators._tensor_product_MProcess_MProcess",
-              "quara.objects.operators._tensor_product_StateEnsemble_StateEnsemble", "quara.objects.operators._tensor_product_Povm_Povm"):
-        h = ix.func(q)
-        a, b = h.params[0], h.params[1]
-        fills, shapes = layout_sites(h, a, b)
-        if not fills or not shapes:
-            rep.undecided("X3", h, "layout", "no fill/shape pair found")
-            continue
-        for node, o_outer, o_inner in fills:
-            for snode, s1, s2 in shapes:
-                con = "%s: fill operand-%d-major, shape operand %d first" % (h.name, o_outer, s1)
-                rep.check(s1 == o_outer, "X3", h, con, "layout and shape agree", "the slow index of the list belongs to operand %d but the shape "
-                          "lists operand %d first: the multi-index is mislabelled when outcome counts differ" % (o_outer, s1), node=snode)
-
+    from ..layout import check_fill_vs_shape
+    OPS = "quara.objects.operators."
+    check_fill_vs_shape(ctx, rep, "X3", [OPS + n for n in (
+        "_compose_qoperations_MProcess_MProcess", "_tensor_product_MProcess_MProcess", "_tensor_product_StateEnsemble_StateEnsemble",
+        "_tensor_product_Povm_Povm", "_compose_qoperations_MProcess_StateEnsemble", "_compose_qoperations_Povm_StateEnsemble")])
 
 
 # ------------------------------------------------------------------------------ X4
